@@ -12,3 +12,4 @@ def run(ctx, rep):
     driver.rule_expert_argcodes(ctx.mod, rep)
     from ..rules import more5
     more5.rule_info_init(ctx.mod, rep)
+    driver.rule_expert_illegal(ctx.mod, rep)
